@@ -41,6 +41,8 @@ func main() {
 		os.Exit(rc)
 	case "list":
 		cmdList(os.Args[2:])
+	case "names":
+		cmdNames(os.Args[2:])
 	case "replay":
 		os.Exit(cmdReplay(os.Args[2:]))
 	default:
@@ -58,6 +60,8 @@ func loadOrDie(repo string) *World {
 		os.Exit(3)
 	}
 	w.computeUniverses()
+	w.loadNames(namesFile())
+	theWorld = w
 	fmt.Fprintf(os.Stderr, "govc: loaded %d packages in %.1fs\n", len(w.Pkgs), time.Since(t0).Seconds())
 	return w
 }
@@ -279,3 +283,13 @@ func cmdReplay(args []string) int {
 	}
 	return 1
 }
+
+// namesFile: /verif/names.json beside the binary's parent directory (bin/govc -> ../names.json), or $GOVC_NAMES.
+func namesFile() string {
+	if p := os.Getenv("GOVC_NAMES"); p != "" {
+		return p
+	}
+	return "/verif/names.json"
+}
+
+var theWorld *World
